@@ -4,7 +4,10 @@ Line-protocol driver for the C13 correspondence: evaluates the very
 definitions of `SpecVerif.C13` that the theorems of `Props/C13.lean` are about.
 
 Input  (one command per line, tokens separated by single spaces):
-  new <typed 0|1> <selfkeyed 0|1> <item>*      start a case: KeyedList(items)
+  new <typed 0|1> <selfkeyed 0|1> <eqmode 0|1|2> <item>*   start a case: KeyedList(items)
+      eqmode = what Python `==` between two items is in this universe:
+        0 identity of the token; 1 payload and kind only (the key is ignored: equal items with
+        different keys); 2 key, payload, kind with kinds 0 and 3 identified ((1, p) == (1.0, p))
   <op> <args>*                                  see `parseOp`
 Item token `k:p:b` (key, payload, bad-kind); option-int `_` = None.
 Output (one line per input line): `<out> ;; <list> ;; <dict>`
@@ -34,6 +37,12 @@ def mkCfg (typed selfKeyed : Bool) : Cfg Item Int :=
   { key := fun x => x.k
     okItem := fun x => !typed || x.b == 0
     asKey := fun x => if selfKeyed then some x.k else none }
+
+def mkEqv (mode : String) : Item → Item → Bool :=
+  if mode == "1" then fun a b => a.p == b.p && a.b == b.b
+  else if mode == "2" then
+    fun a b => a.k == b.k && a.p == b.p && (if a.b == 3 then 0 else a.b) == (if b.b == 3 then 0 else b.b)
+  else fun a b => a == b
 
 def parseOp (ts : List String) : Option (Op Item Int) :=
   match ts with
@@ -89,23 +98,24 @@ def showState (l : KL Item Int) : String := showItems l.list ++ " ;; " ++ showDi
 
 structure St where
   cfg : Cfg Item Int
+  eqv : Item → Item → Bool
   kl : KL Item Int
 
 def handle (st : St) (line : String) : St × String :=
   match (line.trimAscii.toString.splitOn " ").filter (· ≠ "") with
-  | "new" :: typed :: selfk :: items =>
+  | "new" :: typed :: selfk :: eqm :: items =>
     match parseItems items with
     | none => (st, "bad-op")
     | some xs =>
       let cfg := mkCfg (typed == "1") (selfk == "1")
       match ofList cfg xs KL.empty with
-      | .ok l => ({ cfg := cfg, kl := l }, "ok ;; " ++ showState l)
-      | .error e => ({ cfg := cfg, kl := KL.empty }, "err " ++ e.name ++ " ;; " ++ showState (KL.empty : KL Item Int))
+      | .ok l => ({ cfg := cfg, eqv := mkEqv eqm, kl := l }, "ok ;; " ++ showState l)
+      | .error e => ({ cfg := cfg, eqv := mkEqv eqm, kl := KL.empty }, "err " ++ e.name ++ " ;; " ++ showState (KL.empty : KL Item Int))
   | ts =>
     match parseOp ts with
     | none => (st, "bad-op")
     | some op =>
-      let (l', o) := step st.cfg st.kl op
+      let (l', o) := stepE st.cfg st.eqv st.kl op
       ({ st with kl := l' }, showOut o ++ " ;; " ++ showState l')
 
 partial def loop (h : IO.FS.Stream) (out : IO.FS.Stream) (st : St) : IO Unit := do
@@ -116,4 +126,4 @@ partial def loop (h : IO.FS.Stream) (out : IO.FS.Stream) (st : St) : IO Unit := 
   loop h out st'
 
 def main : IO Unit := do
-  loop (← IO.getStdin) (← IO.getStdout) { cfg := mkCfg false true, kl := KL.empty }
+  loop (← IO.getStdin) (← IO.getStdout) { cfg := mkCfg false true, eqv := mkEqv "0", kl := KL.empty }
